@@ -5,6 +5,7 @@
 mod util;
 mod k1;
 mod k2;
+mod sim;
 
 use std::io::{BufRead, Write};
 use std::sync::mpsc;
@@ -25,6 +26,10 @@ fn run_case(line: &str) -> String {
 
 fn main() {
     std::panic::set_hook(Box::new(|_| {}));
+    if std::env::args().nth(1).as_deref() == Some("sim") {
+        sim::main_sim();
+        return;
+    }
     let watchdog_ms: u64 = std::env::var("VERIF_WATCHDOG_MS")
         .ok()
         .and_then(|s| s.parse().ok())
